@@ -5,7 +5,7 @@ tests pass with the patch, demo fails with the patch. Then applies the patch to 
 check, restores /repo, and stores everything under /verif/seeded/<seed-id>/."""
 import json, os, shutil, subprocess, sys, glob
 import os as _os
-_os.environ[\"VF_NO_EVIDENCE\"] = \"1\"
+_os.environ["VF_NO_EVIDENCE"] = "1"
 
 sid, prop, src = sys.argv[1:4]
 needs = sys.argv[4] if len(sys.argv) > 4 else ""
